@@ -90,6 +90,36 @@ func main() {
 				c = genC03(r, idx, *tier)
 			}
 			runC03(e, idx, c)
+		case "C04":
+			var c *MSCase
+			if desc != "" {
+				c = &MSCase{}
+				mustJSON(desc, c)
+				c.norm()
+			} else {
+				c = genC04(r, idx, *tier)
+			}
+			runC04(e, idx, c)
+		case "C09":
+			var c *HistCase
+			if desc != "" {
+				c = &HistCase{}
+				mustJSON(desc, c)
+				c.norm()
+			} else {
+				c = genC09(r, idx, *tier)
+			}
+			runC09(e, idx, c)
+		case "C10":
+			var c *AssumeCase
+			if desc != "" {
+				c = &AssumeCase{}
+				mustJSON(desc, c)
+				c.P.norm()
+			} else {
+				c = genC10(r, idx, *tier)
+			}
+			runC10(e, idx, c)
 		default:
 			fmt.Fprintln(os.Stderr, "unknown property", *prop)
 			os.Exit(2)
